@@ -167,6 +167,12 @@ fn gstate(sc: &PortsSc, upto: usize) -> GState {
                     PortSpec::Zero => true,
                     PortSpec::Fixed(p) => *p >= lo && *p <= hi,
                 };
+                // an explicit listener bind may land on the local port of a live outgoing stream
+                // (the property allows it); a later connection to that listener can then form the
+                // same address pair as the old stream (O11)
+                if matches!(port, PortSpec::Fixed(_)) && in_range && st.objs.iter().any(|o| o.host == *host && matches!(o.kind, GKind::Stream { accepted: false, .. })) {
+                    st.half_dead = true;
+                }
                 st.objs.push(GObj { slot: 2 * k, host: *host, kind: GKind::Listener { localhost: *localhost }, in_range });
             }
             POp::Connect { host, lslot, .. } => {
@@ -260,6 +266,11 @@ fn gen_ports(rng: &mut Rng) -> PortsSc {
         let room = used(host) < size as usize;
         let listeners: Vec<&GObj> = st.objs.iter().filter(|o| matches!(o.kind, GKind::Listener { .. })).collect();
         let streams: Vec<&GObj> = st.objs.iter().filter(|o| matches!(o.kind, GKind::Stream { .. })).collect();
+        if !guarded && !streams.is_empty() && rng.chance(1, 8) {
+            let s = *rng.pick(&streams);
+            sc.ops.push(POp::Write { slot: s.slot });
+            continue;
+        }
         let op = match rng.below(20) {
             0..=2 => {
                 let port = if rng.chance(1, 2) { PortSpec::Zero } else { PortSpec::Fixed(*rng.pick(&fixed_pool)) };
@@ -271,6 +282,9 @@ fn gen_ports(rng: &mut Rng) -> PortsSc {
             3..=5 => {
                 let port = if rng.chance(1, 2) { PortSpec::Zero } else { PortSpec::Fixed(*rng.pick(&fixed_pool)) };
                 if (port == PortSpec::Zero || matches!(port, PortSpec::Fixed(p) if p >= lo && p <= hi)) && !room {
+                    continue;
+                }
+                if guarded && matches!(port, PortSpec::Fixed(p) if p >= lo && p <= hi) && st.objs.iter().any(|o| o.host == host && matches!(o.kind, GKind::Stream { accepted: false, .. })) {
                     continue;
                 }
                 POp::TcpBind { host, port, localhost: rng.chance(1, 4) }
@@ -1371,7 +1385,7 @@ impl Property for C15 {
     }
     fn budget(tier: Tier) -> u64 {
         match tier {
-            Tier::Quick => 400_000,
+            Tier::Quick => 300_000,
             Tier::Thorough => 6_000_000,
         }
     }
@@ -1585,12 +1599,15 @@ mod tests {
             POp::TcpBind { host: 1, port: PortSpec::Fixed(80), localhost: false },
             POp::Connect { host: 0, lslot: 0, via: CVia::Ip },
             POp::Drop { slot: 3 },
+            POp::Sleep { ticks: 5 },
             POp::Drop { slot: 2 },
+            POp::Sleep { ticks: 5 },
             POp::Connect { host: 0, lslot: 0, via: CVia::Name },
             POp::UdpBind { host: 0, port: PortSpec::Zero, localhost: false },
             POp::UdpBind { host: 0, port: PortSpec::Zero, localhost: false },
             POp::UdpBind { host: 0, port: PortSpec::Fixed(49153), localhost: false },
         ];
+        // (49153 is held by the second connect: UDP and streams are different port spaces for explicit binds)
         let sc = PortsSc { cfg, guarded: true, hosts: 2, ops };
         assert!(guards_ok(&sc));
         let r = run_ports(&sc, true);
